@@ -7,16 +7,21 @@ namespace Chalk
 open Sexp
 
 /-! C27: `map-vec` / `map-box` run the `InPlace` model on the harness's parameters.
-    Layout names → (`is_layout_identical`, `is_zst::<T>`, ids of `T` all 0, ids of `U` all 0);
+    Layout names → (`is_layout_identical`, `is_zst::<T>`, `needs_drop::<T>`, `needs_drop::<U>`; ids of `T` all 0, ids of `U` all 0);
     zero-sized elements cannot carry an id, the harness reports 0 for them. -/
 def c27Layout : String → Option (InPlace.Layout × Bool × Bool)
-  | "same" => some (⟨true, false⟩, false, false)
-  | "same-wide" => some (⟨true, false⟩, false, false)
-  | "diff" => some (⟨false, false⟩, false, false)
-  | "shrink" => some (⟨false, false⟩, false, false)
-  | "zst" => some (⟨true, true⟩, true, true)
-  | "zst-sized" => some (⟨false, true⟩, true, false)
-  | "sized-zst" => some (⟨false, false⟩, false, true)
+  | "same" => some ({ identical := true, zst := false }, false, false)
+  | "same-wide" => some ({ identical := true, zst := false }, false, false)
+  | "plain-to-drop" => some ({ identical := true, zst := false, glueT := false }, false, false)
+  | "drop-to-plain" => some ({ identical := true, zst := false, glueU := false }, false, false)
+  | "plain-to-plain" => some ({ identical := true, zst := false, glueT := false, glueU := false }, false, false)
+  | "diff" => some ({ identical := false, zst := false }, false, false)
+  | "plain-diff" => some ({ identical := false, zst := false, glueT := false }, false, false)
+  | "diff-plain" => some ({ identical := false, zst := false, glueU := false }, false, false)
+  | "shrink" => some ({ identical := false, zst := false }, false, false)
+  | "zst" => some ({ identical := true, zst := true }, true, true)
+  | "zst-sized" => some ({ identical := false, zst := true }, true, false)
+  | "sized-zst" => some ({ identical := false, zst := false }, false, true)
   | _ => none
 
 def c27Mode : Sexp → Option (Option InPlace.FailMode)
